@@ -1,236 +1,49 @@
-"""Per-property job plans for ./check (what runs in the quick and thorough tiers).
+"""Per-property job plans for ./check, loaded from plan.d/<Cxx>.json (one file per property).
 
-A job: {"mode": worker --mode, "cases": cases per worker, "workers": n, "secs": per-worker time
-budget (stops early, never a verdict), "build": strict|plain|rustflate|asan|memcheck,
-"kind": vh|miri, "wall_cap": supervisor watchdog (inconclusive when it fires)}.
+plan.d/<Cxx>.json:
+  {"prop": "Cxx",
+   "plan": {"quick": [job, ...], "thorough": [job, ...]},
+   "rule": "how cases are generated and what makes one non-trivial / distinct (goes into the evidence file)",
+   "required": {"quick": [class, ...], "thorough": [...]},   # event classes the tier promises to observe
+   "assumptions": ["..."],
+   "level": "exploration" | "fault_enumeration",            # evidence level (default exploration)
+   "manifest": {"cat": ..., "text": ..., "ref": ..., "note": ..., "technique": ...}}
+
+A job: {"kind": "vh"|"miri", "mode": worker --mode, "cases": cases per worker, "workers": n,
+"secs": per-worker time budget (stops early, never a verdict), "build": strict|plain|rustflate|asan|memcheck,
+"wall_cap": supervisor watchdog in seconds (inconclusive when it fires), optional "env", "wrap",
+"no_limits", "seed_offset"}. Missing keys get defaults (workers 16, build strict, wall_cap 3*secs+600).
 """
+import glob
+import json
+import os
 
+ROOT = os.path.dirname(os.path.abspath(__file__))
 N = 16
 
+PLAN, RULES, REQUIRED_CLASSES, ASSUMPTIONS, MANIFEST_TEXT, LEVELS = {}, {}, {}, {}, {}, {}
 
-def vh(mode, cases, secs, workers=N, **kw):
-    d = {"kind": "vh", "mode": mode, "cases": cases, "secs": secs, "workers": workers,
-         "build": "strict", "wall_cap": secs * 3 + 600}
-    d.update(kw)
+
+def _norm_job(j):
+    d = {"kind": "vh", "mode": "", "workers": N}
+    d.update(j)
+    if d["kind"] == "vh":
+        d.setdefault("build", "strict")
+        d.setdefault("secs", 60)
+        d.setdefault("wall_cap", d["secs"] * 3 + 600)
+    else:
+        d.setdefault("wall_cap", 2400)
     return d
 
 
-def miri(mode, cases, workers=N, wall_cap=2400):
-    return {"kind": "miri", "mode": mode, "cases": cases, "workers": workers, "wall_cap": wall_cap}
-
-
-VALGRIND = ["valgrind", "--error-exitcode=97", "--quiet", "--leak-check=no"]
-
-PLAN = {
-    "C01": {
-        "quick": [vh("", 2500, 70)],
-        "thorough": [vh("", 150000, 900)],
-    },
-    "C06": {
-        "quick": [vh("", 2500, 60)],
-        "thorough": [vh("", 250000, 700)],
-    },
-    "C11": {
-        "quick": [vh("", 2500, 50)],
-        "thorough": [vh("", 300000, 700)],
-    },
-    "C13": {
-        "quick": [vh("", 12000, 40)],
-        "thorough": [vh("", 1200000, 600)],
-    },
-    "C14": {
-        "quick": [
-            vh("ops", 40000, 60),
-            vh("parse", 250, 60),
-            miri("ops", 60, workers=N, wall_cap=900),
-        ],
-        "thorough": [
-            vh("ops", 1500000, 400),
-            vh("parse", 6000, 400),
-            vh("ops", 300000, 200, build="plain"),
-            vh("ops", 60000, 300, build="asan", no_limits=True,
-               env={"ASAN_OPTIONS": "detect_leaks=0:abort_on_error=1:max_allocation_size_mb=2048"}),
-            vh("ops", 1500, 600, build="memcheck", wrap=VALGRIND, no_limits=True),
-            miri("ops", 900, workers=N, wall_cap=3000),
-            miri("parse", 3, workers=N, wall_cap=3000),
-        ],
-    },
-    "C10": {
-        "quick": [vh("", 3000, 50)],
-        "thorough": [vh("", 400000, 500), vh("", 100000, 300, build="rustflate", seed_offset=1000)],
-    },
-    "C16": {
-        "quick": [vh("", 25000, 50)],
-        "thorough": [vh("", 3000000, 700)],
-    },
-    "C17": {
-        "quick": [vh("", 40000, 40)],
-        "thorough": [vh("", 4000000, 600)],
-    },
-}
-
-RULES = {
-    "C01": "A case is a seed font from /repo/tests (93 fonts + 206 AOTS fonts; TrueType, CFF, CFF2, variable, "
-           "sbix, SVG, WOFF, WOFF2, TTC) with 1-4 structure-aware faults (byte/field overwrites with boundary "
-           "values, truncation at table boundaries, directory surgery, targeted header fields of hot tables, table "
-           "removal/duplication/swap/splice) driven through every public entry point (load, tables, cmap, names, "
-           "metrics, images, outlines, shaping smoke, subset, prince::subset, whole_font, instance), each call "
-           "under panic / allocation / CPU-time monitors; supervisor attributes aborts, stack overflows and hangs. "
-           "Non-trivial = the faulted font was accepted by FontData::read and at least one deeper parser returned "
-           "Ok; distinct by hash of the faulted bytes.",
-    "C06": "A case is (60%) one generated cmap subtable of format 0/2/4/6/10/12: an abstract code->glyph map plus "
-           "random layout choices (format 4: segmentation, delta- vs idRangeOffset-encoded segments, non-zero idDelta "
-           "on array segments, zero entries inside ranges, shared glyphIdArray slices, mapped/unmapped 0xFFFF; format 2: "
-           "lead bytes, firstCode/entryCount, idDelta; format 12: group splits) written by the independent writer and "
-           "probed through CmapSubtable::map_glyph, owned::CmapSubtable::map_glyph, mappings_fn and mappings on all "
-           "mapped codes, their neighbours, boundary codes and random codes; (30%) a whole generated font with 1-5 "
-           "encoding records in random order probed through Font::lookup_glyph_index (subtable preference order, "
-           "Unicode / Symbol with OS/2.usFirstCharIndex / Mac Roman / Big5 encodings, tables from Python codecs); "
-           "(10%) a real font compared with the independent cmap reader. Mac Roman and Big5 conversions are checked "
-           "for mutual inversion exhaustively (all 256 bytes, all 1,112,064 scalar values, all 65536 Big5 codes) in "
-           "every run. Non-trivial = subtable with at least one mapped code / generated font / real font subtable; "
-           "distinct by hash of the generated bytes.",
-    "C11": "A case is a TrueType font in abstract form (generated: 1-40 simple/composite/empty glyphs with true or "
-           "arbitrary bounding boxes, instructions up to 850 bytes, numberOfHMetrics <= numGlyphs, lsb equal to xMin or "
-           "not, 0-7 further tables with known or arbitrary tags and lengths up to 135 KiB; or a real fixture font read "
-           "by the independent reader; or a CFF-flavoured fixture; or a 2-3 member collection with shared or separate "
-           "glyf/loca) encoded by the harness's own WOFF2 encoder with random encoder choices: glyf/loca transform or "
-           "null transform, for every point a random choice among all triplet encodings that can represent (dx,dy), all "
-           "255UInt16 forms, explicit or computed bounding boxes, overlap bitmap, hmtx transform with either or both "
-           "side-bearing arrays elided when legal, table order, arbitrary-tag form for known tags, brotli meta-block "
-           "sizes. allsorts' decoded tables are compared: untransformed tables byte-identical; glyf/loca/hmtx/head "
-           "re-read by the independent reader and compared glyph by glyph (contours, points, on-curve flags, "
-           "instructions, bounding boxes, components, advance and lsb of every glyph). All 65536 x all legal 255UInt16 "
-           "encodings and 200k UIntBase128 values (plus the three rejection rules) are checked in every run. "
-           "Non-trivial = every encoded font; distinct by hash of the WOFF2 bytes.",
-    "C13": "A case is 1-3 generated axis triples (min <= default <= max incl. degenerate shapes and the extremes of "
-           "the 16.16 range), an optional valid avar segment map per axis (fixed points -1/0/1, strictly increasing "
-           "from-coordinates, non-decreasing to-coordinates, steep and flat segments) written as fvar/avar tables by "
-           "the harness, and 20-260 user values for one axis (axis ends, default, knots of the map +-1 raw unit, "
-           "out-of-range values, a sorted 257-point sweep in a quarter of the cases). allsorts' FvarTable::normalize "
-           "is compared with an exact rational model (tolerance 1 F2Dot14 unit x max(1, slope)); exactness at "
-           "min/default/max, monotonicity over the sweep and rejection of wrong-length tuples are checked. All 65536 "
-           "F2Dot14 values go through every fixed-point conversion exhaustively in every run. Non-trivial = every "
-           "generated (axes, avar, axis) case; distinct by hash of that description.",
-    "C14": "A case is a random program of 1-200 reader operations (typed reads of every ReadUnchecked "
-           "type, array/stride/dep/upto reads with lengths up to usize::MAX, sub-scopes, slices, "
-           "nibble scans, iteration, indexing, binary search, Cow wrappers) over a random 0-300 byte "
-           "window embedded in a poisoned allocation, checked step by step against a shadow model on "
-           "&[u8] with checked arithmetic; or (mode parse) one real or byte-faulted font driven through "
-           "loading, mapping, outlines and subsetting under the read-window hook. Non-trivial = window "
-           "non-empty and at least two operations executed (ops) / at least one hooked primitive read "
-           "(parse); distinct by hash of (window bytes, program seed) or of the font bytes.",
-    "C10": "A case is a generated table set (0-40 tables; tags incl. arbitrary 32-bit values; lengths 0, 1, odd, > 64 KiB; "
-           "compressible and incompressible contents) wrapped by the harness's own writers as a bare sfnt (random "
-           "physical order, sorted or unsorted directory, flavours 0x00010000/OTTO/true), a TrueType collection (1-5 "
-           "members sharing tables from a pool, header v1/v2) or a WOFF file (per table stored or zlib-compressed at "
-           "level 1/6/9, 'not smaller => stored', optional metadata and private blocks) and read back through FontData, "
-           "OpenTypeFont, WoffFont and DynamicFontTableProvider: table bytes, has_table, table_tags as a multiset, "
-           "sfnt_version, absent tags, member index beyond the end of a collection. The thorough tier repeats the "
-           "workload on a build with the flate2 rust backend. Non-trivial = container with at least one table; distinct "
-           "by hash of the container bytes.",
-    "C16": "A case is a generated glyf table of 1-6 simple glyphs (0-8 contours of 1-40 points with all on/off-curve "
-           "patterns incl. all-off, first/last off, single-point contours; coordinates up to the full i16 range; flag "
-           "stream written with random repeat runs, short/long/same delta forms) and 0-7 composite glyphs (1-4 "
-           "components, byte/word XY args, no/uniform/x-y/2x2 scale, offset flags, nesting up to depth 7, occasionally "
-           "cyclic), written by the independent glyf writer and read back by the independent reader before use. "
-           "GlyfTable::visit is run for every glyph and the recorded sink commands are compared with the contour model "
-           "(closed sub-paths, implied midpoints, order of contours) modulo the choice of start point, composites under "
-           "the affine map of each component composed down the tree. Not judged (counted): point-matching args, "
-           "SCALED_COMPONENT_OFFSET with a scale, features smaller than the f32 allowance. Non-trivial = a table with at "
-           "least one non-empty outline compared; distinct by hash of the glyf bytes.",
-    "C17": "A case is a script tag (39 tags: Arabic, Syriac, Thai, Lao, the v1 and v2 Indic tags, Khmer, Myanmar, "
-           "Latin/Hebrew/Default and garbage tags) and a text of 0-64 characters mixing bases of the script with hostile "
-           "material (lone marks, mark runs of 2-300 incl. > 20 to reach the large-slice sort, several shaddas "
-           "interleaved with modifier combining marks, SARA AM / Lao AM after tone marks, two- and three-part vowels, "
-           "YA+NUKTA, RA+HALANT+ZWJ at and not at string start, prohibited vowel pairs, joiners, U+25CC, foreign and "
-           "astral characters, arbitrary code points). scripts::preprocess_text (and Font::map_glyphs on three Noto "
-           "fonts) is compared with (1) table-free relational checks: permutation / multiset explained by the "
-           "documented rewrites, class-0 characters keep their index, mark runs permuted within themselves; (2) exact "
-           "models per script class: stable sort by modified combining class, an independent UTR #53 implementation "
-           "for Arabic, AM splits, Indic decompositions / dotted circle / ya-nukta / Kannada swap, Khmer splits. All "
-           "single characters, pairs and triples of a reduced pool are enumerated per tag in every run. Non-trivial = "
-           "preprocessing changed the text or it contains a mark run of length >= 2; distinct by hash of (tag, text).",
-}
-
-REQUIRED_CLASSES = {
-    "C01": {"quick": ["faulted-font-got-past-front-door", "ep:subset:ok", "ep:instance:ok", "ep:glyf.visit:ok",
-                      "ep:cff.visit:ok", "fault:truncate", "fault:dir"],
-            "thorough": ["faulted-font-got-past-front-door", "ep:subset:ok", "ep:instance:ok", "ep:cff2.visit:ok"]},
-    "C06": {"quick": ["subtable:fmt0", "subtable:fmt2", "subtable:fmt4", "subtable:fmt6", "subtable:fmt10", "subtable:fmt12",
-                      "enumeration-checked", "selection:Unicode", "selection:Symbol", "selection:MacRoman", "selection:Big5",
-                      "selection:none", "font-judged:Symbol", "real:fmt4", "exhaustive:scalar-values", "exhaustive:big5-codes",
-                      "exhaustive:macroman-bytes"],
-            "thorough": ["subtable:fmt4", "real:fmt12", "exhaustive:scalar-values"]},
-    "C11": {"quick": ["gen:ok", "real:ok", "real:cff-flavoured", "glyf:transformed", "glyf:null-transform", "hmtx:transformed",
-                      "hmtx:lsb-elided", "hmtx:tail-elided-with-tail", "numberOfHMetrics<numGlyphs", "has-composite",
-                      "collection:shared-glyf", "collection:separate-glyf", "exhaustive:255uint16-encodings",
-                      "exhaustive:uintbase128", "triplet-flag:000", "triplet-flag:019", "triplet-flag:083", "triplet-flag:119",
-                      "triplet-flag:123", "triplet-flag:127"],
-            "thorough": ["gen:ok", "real:ok", "collection:shared-glyf", "triplet-flag:064"]},
-    "C13": {"quick": ["value:avar", "value:default", "steep-segment", "monotone-sweep", "fixed-point-checked",
-                      "wrong-length-rejected", "degenerate:min=default", "degenerate:default=max",
-                      "exhaustive:f2dot14-values", "float-to-fixed"],
-            "thorough": ["value:avar", "exhaustive:f2dot14-values"]},
-    "C14": {
-        "quick": ["read:u8:ok", "read:u64:eof", "read_array:err:max", "read_array_stride:ok",
-                  "array:bsearch-sorted", "array:cow", "scope.offset:out", "read_until_nibble:ok",
-                  "parse:hooked-reads"],
-        "thorough": ["read:u8:ok", "read_array:err:max", "parse:hooked-reads"],
-    },
-    "C10": {"quick": ["sfnt", "ttc", "woff", "ttc:shared-tables", "ttc:index-beyond-end-rejected", "woff:compressed-table",
-                      "woff:stored-table", "woff:compression-not-smaller-stored", "woff:metadata", "dir:unsorted", "empty-table-set"],
-            "thorough": ["sfnt", "ttc", "woff", "woff:compressed-table"]},
-    "C16": {"quick": ["contour:first-on,last-on", "contour:first-off,last-off", "contour:first-off,last-on", "contour:first-on,last-off",
-                      "contour:all-off", "contour:single-point", "transform:2x2", "transform:xy", "transform:uniform",
-                      "composite:depth-1", "composite:depth-3", "composite:cyclic", "glyph:empty"],
-            "thorough": ["contour:all-off", "transform:2x2", "composite:depth-5", "composite:depth-limit-error"]},
-    "C17": {"quick": ["reordered", "run>=2", "run>=21", "run>=32", "shadda+mcm", "shadda-in-run>20", "lone-mark-at-start",
-                      "sara-am-split", "sara-am-nikhahit-moved", "two-part-vowel-split", "dotted-circle-inserted", "ya-nukta",
-                      "kannada-swap", "khmer-vowel-split", "via-map_glyphs", "text:empty", "text:arbitrary-code-points",
-                      "script:arab", "script:syrc", "script:thai", "script:lao", "script:deva", "script:beng", "script:knda",
-                      "script:khmr", "script:mymr", "script:hebr", "exhaustive:pair"],
-            "thorough": ["reordered", "run>=65", "shadda-in-run>20", "kannada-swap", "exhaustive:triple"]},
-}
-
-ASSUMPTIONS = {
-    "C01": [
-        "thresholds: single allocation request > 1 GiB refused; peak live memory per call > 256 MiB + 512 B/input byte; CPU time per call > 4 s + 40 us/input byte; 120 s CPU per case; 8 MiB stack",
-        "strict build profile (opt-level 2, overflow-checks and debug-assertions on): arithmetic wrap-around that cargo test would trip is observed as a panic",
-        "only the generated faults are covered; nothing is claimed about inputs outside the fault operators' reach",
-    ],
-    "C06": [
-        "expected glyph = the generator's abstract map (never parsed back from bytes); the independent reader is used for real fonts only",
-        "format 2: only codes that are characters of the encoding are judged (one-byte codes that are not lead bytes, two-byte codes whose high byte is a lead byte)",
-        "Symbol encoding is judged on U+0020-00FF and U+F020-F0FF only; Mac Roman on the positions present in allsorts' (PostScript-subset) table; Big5 on a 616-character sample from Python's big5 codec",
-        "subtable preference order = the one documented in font.rs (3,10 > 3,1 > 0,4 > any platform 0 > 3,0 > 1,0 > 3,4)",
-    ],
-    "C11": [
-        "the WOFF2 encoder is the harness's own (written from the W3C text); the payload is a brotli stream of uncompressed meta-blocks (conforming; no compressor is available here), so the brotli decompressor's compressed paths are not exercised",
-        "the hmtx transform is only combined with the glyf transform; OVERLAP_SIMPLE/OVERLAP_COMPOUND bits and the word/byte form of component args are not compared (not listed by the statement); the flavour reported for collection members is not judged",
-    ],
-    "C13": [
-        "the exact rational model follows the OpenType 'coordinate scales and normalization' text; avar maps are generated valid (the statement quantifies over valid maps only)",
-        "min > max axes are C01 inputs, not C13 cases",
-    ],
-    "C14": [
-        "the shadow model (safe Rust on &[u8], checked arithmetic) is the specification of the reader",
-        "the verif-hooks read-window assertion sees every primitive read (all ReadUnchecked impls delegate to the four hooked primitives)",
-        "Miri/ASan/memcheck see only the executions this run produced",
-    ],
-    "C10": [
-        "containers are produced by the harness's independent sfnt/TTC/WOFF writers; zlib streams come from flate2 used as an encoder",
-        "single fonts and WOFF files ignore the member index by design (allowed by the statement); only collections must reject an index beyond the end",
-    ],
-    "C16": [
-        "contour model and component transform (x' = xscale x + scale10 y + dx, y' = scale01 x + yscale y + dy, unscaled offsets) follow the OpenType/TrueType glyf text",
-        "paths are compared modulo rotation of the start point; zero-length lines from duplicate points are ignored",
-        "nesting deeper than 4 may be refused with an error (bounded depth); cyclic composites must be refused",
-    ],
-    "C17": [
-        "combining classes and decompositions come from Python unicodedata 14.0 (generated table, committed); characters unassigned there get only the table-free checks",
-        "modified combining classes transcribed from the HarfBuzz/SBL documentation cited in mcc.rs; Arabic reference implemented from UTR #53",
-        "C17 limits what may change: an applicable rewrite that allsorts does not perform (e.g. a second SARA AM left unsplit) is counted as a class, not a violation",
-        "v2 Indic tags may be treated as Default or as Indic",
-    ],
-}
+for _p in sorted(glob.glob(os.path.join(ROOT, "plan.d", "C*.json"))):
+    with open(_p) as _f:
+        _d = json.load(_f)
+    _id = _d["prop"]
+    PLAN[_id] = {t: [_norm_job(j) for j in js] for t, js in _d["plan"].items()}
+    RULES[_id] = _d.get("rule", "")
+    REQUIRED_CLASSES[_id] = _d.get("required", {})
+    ASSUMPTIONS[_id] = _d.get("assumptions", [])
+    LEVELS[_id] = _d.get("level") or (_d.get("manifest") or {}).get("cat") or "exploration"
+    if _d.get("manifest"):
+        MANIFEST_TEXT[_id] = _d["manifest"]
